@@ -378,7 +378,7 @@ class Body:
             bids.append(0)
         if len(outs) == 1:
             return outs[0]
-        return ('phi', l, outs, self.names.get(l), bids)
+        return ('phi', l, outs, self.names.get(l), bids, self.path, None)
 
     def def_expr(self, bid, kind, x, depth, seen):
         if kind == 'call':
@@ -496,27 +496,161 @@ def simplify(e):
 def alternatives(body, e, limit=64, _conds=()):
     """E6 gamma expansion: expand phi nodes reachable from the top of `e` through projection /
     cast / ref wrappers into alternatives [(expr, conds)], conds = tuple of (discr expr, values)
-    that hold in the defining block of the chosen branch (edge dominance)."""
+    that hold in the defining block of the chosen branch (edge dominance). Phi nodes that came from an
+    inlined callee carry their own body path and argument substitution."""
     k = e[0]
     if k == 'phi':
         out = []
+        b2 = body.facts.bodies.get(e[5], body) if len(e) > 5 and e[5] else body
+        sub = e[6] if len(e) > 6 else None
         for br, bid in zip(e[2], e[4]):
-            cs = tuple(_conds) + tuple((d, v) for (_, d, v) in body.conditions(bid))
-            out += alternatives(body, br, limit, cs)
+            cs = []
+            for (_, d, v) in b2.conditions(bid):
+                cs.append((subst_args(d, sub) if sub is not None else d, v))
+            out += alternatives(body, br, limit, tuple(_conds) + tuple(cs))
             if len(out) > limit:
                 break
         return out
     if k in ('ref', 'deref', 'discr'):
         return [(simplify((k, x)), c) for x, c in alternatives(body, e[1], limit, _conds)]
     if k == 'field':
-        return [(simplify(('field', x, e[2], e[3] if len(e) > 3 else e[2])), c) for x, c in alternatives(body, e[1], limit, _conds)]
+        out = []
+        for x, c in alternatives(body, e[1], limit, _conds):
+            y = simplify_field(('field', x, e[2], e[3] if len(e) > 3 else e[2]))
+            if y[0] != 'field' or (y is not e and has_phi_spine(y)):
+                out += alternatives(body, y, limit, c)     # projection resolved to an operand: keep expanding
+            else:
+                out.append((y, c))
+        return out
     if k == 'downcast':
-        return [(('downcast', x, e[2]), c) for x, c in alternatives(body, e[1], limit, _conds)]
+        return [(simplify_downcast(('downcast', x, e[2])), c) for x, c in alternatives(body, e[1], limit, _conds)]
     if k == 'cast':
         return [(('cast', e[1], e[2], x, e[4] if len(e) > 4 else None), c) for x, c in alternatives(body, e[3], limit, _conds)]
     if k == 'call' and is_transparent(e[1]) and e[2]:
         return [(('call', e[1], [x] + list(e[2][1:]), e[3]), c) for x, c in alternatives(body, e[2][0], limit, _conds)]
     return [(e, tuple(_conds))]
+
+
+def has_phi_spine(e):
+    """is there a phi reachable from the top through projection/ref wrappers?"""
+    while True:
+        if e[0] == 'phi':
+            return True
+        if e[0] in ('field', 'downcast', 'ref', 'deref', 'discr'):
+            e = e[1]
+        else:
+            return False
+
+
+def simplify_downcast(e):
+    """(Some{x} as Some) stays a downcast node; field projection of it is resolved by simplify_field"""
+    return e
+
+
+def subst_args(e, args):
+    """replace ('arg', i, name) nodes of an (inlined) callee expression by the caller's argument expressions"""
+    if args is None:
+        return e
+    k = e[0]
+    if k == 'arg':
+        i = e[1] - 1
+        return args[i] if 0 <= i < len(args) else e
+    if k in ('const', 'fnitem', 'top', 'undef', 'loop', 'var'):
+        return e
+    if k in ('ref', 'deref', 'discr', 'repeat', 'proj?'):
+        return simplify((k, subst_args(e[1], args)))
+    if k == 'field':
+        return simplify(('field', subst_args(e[1], args)) + tuple(e[2:]))
+    if k == 'downcast':
+        return ('downcast', subst_args(e[1], args), e[2])
+    if k == 'index':
+        return ('index', subst_args(e[1], args), subst_args(e[2], args))
+    if k == 'call':
+        return ('call', e[1], [subst_args(a, args) for a in e[2]], e[3])
+    if k == 'callptr':
+        return ('callptr', subst_args(e[1], args), [subst_args(a, args) for a in e[2]], e[3])
+    if k == 'binop':
+        return ('binop', e[1], subst_args(e[2], args), subst_args(e[3], args))
+    if k == 'unop':
+        return ('unop', e[1], subst_args(e[2], args))
+    if k == 'cast':
+        return ('cast', e[1], e[2], subst_args(e[3], args)) + tuple(e[4:])
+    if k == 'aggr':
+        return ('aggr', e[1], [subst_args(a, args) for a in e[2]]) + tuple(e[3:])
+    if k == 'phi':
+        old = e[6] if len(e) > 6 else None
+        newsub = tuple(args) if old is None else tuple(subst_args(a, args) for a in old)
+        return ('phi', e[1], [subst_args(a, args) for a in e[2]], e[3], e[4], e[5] if len(e) > 5 else None, newsub)
+    return e
+
+
+def inlinable(facts, path):
+    b = facts.bodies.get(path)
+    if b is None or b.kind not in ('fn', 'method'):
+        return None
+    if len(b.blocks) > 120 or b.loops():
+        return None
+    return b
+
+
+def inline_calls(facts, e, depth=2, skip=None, _stack=()):
+    """E6 inlining: replace calls to crate-local loop-free functions by their return expression with the
+    arguments substituted (depth-bounded). `skip` is a regex of callee paths to keep opaque (leaf getters)."""
+    k = e[0]
+    rec = lambda x: inline_calls(facts, x, depth, skip, _stack)
+    if k in ('const', 'fnitem', 'top', 'undef', 'loop', 'var', 'arg'):
+        return e
+    if k in ('ref', 'deref', 'discr', 'repeat', 'proj?'):
+        return simplify((k, rec(e[1])))
+    if k == 'field':
+        return simplify_field(('field', rec(e[1])) + tuple(e[2:]))
+    if k == 'downcast':
+        return ('downcast', rec(e[1]), e[2])
+    if k == 'index':
+        return ('index', rec(e[1]), rec(e[2]))
+    if k == 'binop':
+        return ('binop', e[1], rec(e[2]), rec(e[3]))
+    if k == 'unop':
+        return ('unop', e[1], rec(e[2]))
+    if k == 'cast':
+        return ('cast', e[1], e[2], rec(e[3])) + tuple(e[4:])
+    if k == 'aggr':
+        return ('aggr', e[1], [rec(a) for a in e[2]]) + tuple(e[3:])
+    if k == 'phi':
+        return ('phi', e[1], [rec(a) for a in e[2]]) + tuple(e[3:])
+    if k == 'callptr':
+        return ('callptr', rec(e[1]), [rec(a) for a in e[2]], e[3])
+    if k == 'call':
+        args = [rec(a) for a in e[2]]
+        path = e[1]
+        if depth > 0 and path not in _stack and not (skip and re.search(skip, path)) and not is_transparent(path):
+            b = inlinable(facts, path)
+            if b is not None and len(args) == b.argc:
+                ret = b.local_expr(0)
+                if ret[0] != 'top':
+                    body_e = subst_args(ret, args)
+                    return inline_calls(facts, body_e, depth - 1, skip, _stack + (path,))
+        return ('call', path, args, e[3])
+    return e
+
+
+def simplify_field(e):
+    """field projection through a constructed value: (Adt{a, b}).name -> operand; (X as Some).0 with X = Some{v} -> v"""
+    e = simplify(e)
+    if e[0] != 'field':
+        return e
+    base = e[1]
+    if base[0] == 'downcast' and base[1][0] == 'aggr' and base[1][1].endswith('::' + str(base[2])):
+        idx = e[2]
+        ag = base[1]
+        names = ag[3] if len(ag) > 3 else []
+        if idx in names:
+            return ag[2][names.index(idx)]
+        if idx.isdigit() and int(idx) < len(ag[2]):
+            return ag[2][int(idx)]
+    if base[0] == 'aggr' and len(base) > 3 and e[2] in (base[3] or []):
+        return base[2][base[3].index(e[2])]
+    return e
 
 
 def resolve_conds(body, conds):
